@@ -105,7 +105,7 @@ inductive Out where
   /-- the call is waiting for `storeOrAmend`; it asked the node for `call`. -/
   | pend (call : List VIdx)
   | none
-  deriving Repr
+  deriving Repr, DecidableEq
 
 /-- version of the node's answer for epoch `e`: number of reorgs back to an epoch `< e`. -/
 def verOf (reorgs : List Epoch) (e : Epoch) : Nat :=
